@@ -529,6 +529,7 @@ func c06exec(c *h.Ctx, cs *h.Case) {
 		ridReal: map[int]onet.RosterID{}, ridLabel: map[onet.RosterID]int{}, tidReal: map[int]onet.TreeID{}, tidLabel: map[onet.TreeID]int{}}
 	var env *c06env
 	var ovl *onet.Overlay
+	var net *c06net
 	var insts []interface{ Done() }
 	everReq, locals := map[onet.TreeID]bool{}, map[onet.TreeID]bool{}
 	history := func() {
@@ -545,6 +546,10 @@ func c06exec(c *h.Ctx, cs *h.Case) {
 		}
 		if ovl != nil {
 			ovl.VerifC06Reset()
+		}
+		if net != nil {
+			net.ovl[0].VerifC06Reset()
+			net.ovl[1].VerifC06Reset()
 		}
 	}()
 	atoi := func(s string) (int, bool) {
@@ -649,6 +654,14 @@ func c06exec(c *h.Ctx, cs *h.Case) {
 				}
 			}()
 			if len(tk) < 2 || tk[0] != "c06" {
+				return
+			}
+			if strings.HasPrefix(tk[1], "n.") {
+				// two cooperating servers (c06net.go)
+				if env == nil {
+					env = c06getEnv()
+				}
+				obs = cc.netOp(cs, env, &net, tk, op)
 				return
 			}
 			switch tk[1] {
@@ -1828,6 +1841,59 @@ func c06gen(c *h.Ctx, yield func(*h.Case)) {
 			emit("history random", ops)
 		}
 	}
+	// --- two cooperating servers (c06net.go): both register, both ask (current and deprecated form), the
+	// messages in flight are handled in any order, twice, or (lossy variant) never ---------------------
+	for i := 0; i < c.Pick(40, 400); i++ {
+		ops, _, ts := world()
+		lossy := i%4 == 3
+		site := func() string { return []string{"A", "B"}[r.Intn(2)] }
+		holder := map[int]string{}
+		var pre []string
+		for _, t := range ts[:4] {
+			holder[t.tid] = site()
+			pre = append(pre, fmt.Sprintf("c06 n.register %s %d", holder[t.tid], t.label))
+		}
+		other := map[string]string{"A": "B", "B": "A"}
+		late := -1
+		if r.Intn(3) == 0 {
+			late = r.Intn(len(pre)) // one tree is registered only after it was asked for: that request finds nothing
+		}
+		for j, o := range pre {
+			if j != late {
+				ops = append(ops, o)
+			}
+		}
+		var alpha []string
+		for _, t := range ts[:4] {
+			ask := fmt.Sprintf("c06 n.ask %s %d %d", other[holder[t.tid]], t.tid, r.Intn(2))
+			ops = append(ops, ask)
+			alpha = append(alpha, ask, fmt.Sprintf("c06 n.ask %s %d %d", site(), t.tid, r.Intn(2)))
+		}
+		if late >= 0 {
+			ops = append(ops, pre[late])
+		}
+		for j := 0; j < 12; j++ {
+			alpha = append(alpha, fmt.Sprintf("c06 n.deliver %s %d", site(), r.Intn(5)))
+		}
+		for j := 0; j < 4; j++ {
+			alpha = append(alpha, fmt.Sprintf("c06 n.dup %s %d", site(), r.Intn(5)))
+		}
+		if lossy {
+			alpha = append(alpha, fmt.Sprintf("c06 n.drop %s %d", site(), r.Intn(5)), fmt.Sprintf("c06 n.unrequest %s %d", site(), 1+r.Intn(4)),
+				fmt.Sprintf("c06 n.expire %s %d", site(), 1+r.Intn(4)))
+		}
+		for j := 0; j < 10+r.Intn(20); j++ {
+			ops = append(ops, alpha[r.Intn(len(alpha))])
+		}
+		for j := 0; j < 16; j++ {
+			ops = append(ops, "c06 n.deliver A 0", "c06 n.deliver B 0")
+		}
+		if lossy {
+			emit("net lossy", ops)
+		} else {
+			emit("net schedule", ops)
+		}
+	}
 	// random histories that also let trees expire: here the known finding can show up, so only the
 	// weaker oracle statements are checked and the model is compared
 	for i := 0; i < c.Pick(100, 1500); i++ {
@@ -1865,5 +1931,6 @@ func c06gen(c *h.Ctx, yield func(*h.Case)) {
 	emit("malformed-lines", []string{"c06 roster 1 1 0", "c06 tree 1 1 1 0/0:0", "c06 roster 1 1 0 3/4,5/6", "c06 tree 1 1 1 0/3:1", "c06 tree 1 1 1 2/3:0",
 		"c06 marshal-rt 9 1", "c06 maketree T1,R1,1 1", "c06 strip 1 9", "c06 equal 1 9", "c06 frommarshal junk 1", "c06 frommarshal empty 9", "c06 binaryun junk x",
 		"c06 binaryun splice 9 1", "c06 binaryun", "c06 roster 2 2 0 3/-,5/6", "c06 tree 2 2 2 0/3:0", "c06 h.msg roster 2", "c06 h.msg resptree T1,R2,1;5/5:0 2", "c06 maketree X1,R1,1;3/3:0 1", "c06 h.msg tm T1,R1,1;3/3:1", "c06 h.msg frob 1", "c06 h.request x", "c06 h.reqfail", "c06 h.reqsend y", "c06 frob",
+		"c06 n.deliver C 0", "c06 n.deliver A", "c06 n.deliver A x", "c06 n.frob A 1", "c06 n.ask A 1 2", "c06 n.ask A x 1", "c06 n.register A 9", "c06 n.expire B y",
 		"c06 sibling 9 3", "c06 sibling 1", "c06 sibling 1 99", "c06 sibling x 3", "c06 gtree 1 1 1 2 0", "c06 gtree 1 1 9 2 0 0/3:0", "c06 gtree 1 1 1 0 0 0/3:0", "c06 gtree 1 1 1 2 7 0/3:0", "c06 gtree 1 1 1 x 0 0/3:0"})
 }
